@@ -65,6 +65,7 @@ type absState struct {
 	deps       map[util.Uint160]*depRec
 	gpv        map[string]*big.Int
 	committee  []cvRec
+	regPrice   int64
 	decodeErrs []string
 }
 
@@ -137,6 +138,9 @@ func (w *world) dump() *absState {
 		s.cands[string(k)] = &candRec{pub: pub, reg: reg, votes: votes}
 		return true
 	})
+	if si := w.bc.GetStorageItem(nativeids.NeoToken, []byte{13}); si != nil { // prefixRegisterPrice
+		s.regPrice = bigint.FromBytes(si).Int64()
+	}
 	if si := w.bc.GetStorageItem(nativeids.NeoToken, []byte{pfxVotersCount}); si != nil {
 		s.voters = bigint.FromBytes(si)
 		s.votersSet = true
